@@ -298,6 +298,8 @@ def main():
         confs = sorted(set(pick[:max(max_conf, len(seen_k))]))
     programs = ["call", "call-exact", "call-pedigree"]
     runs = []
+    run_ploidies = []
+    mixed_files = write_mixed_ploidy_files(wdir)
     for k in confs:
         classes = {}
         for i in byconf[k]:
@@ -324,22 +326,30 @@ def main():
         report = ["AFPRIOR", "AFP", "GP"] if ci % 3 == 0 else ["AFPRIOR", "AFP"]
         inbred = ["--inbreeding", "0.3"] if (ci // 3) % 2 else []
         for prog in progs_here:
-            argv = ["--bam"] + BAMS + ["--ploidy", str(PLOIDY), "--haplotypes", path, "--report"] + report + extra
+            # every second call-pedigree run (every third call / call-exact run): samples of ploidy 4 / 3 / 2
+            mixed = (ci % 2 == 0) if prog == "call-pedigree" else (ci % 3 == 1)
+            argv = ["--bam"] + BAMS + ["--ploidy", mixed_files["ploidy"] if mixed else str(PLOIDY), "--haplotypes", path, "--report"] + report + extra
             if prog != "call-pedigree":  # call-pedigree has no --inbreeding option
                 argv += inbred
             if prog != "call-exact":
                 argv += ["--mcmc-steps", "80", "--mcmc-burn", "40", "--mcmc-seed", str(1 + ck.seed)]
             if prog == "call-pedigree":
-                argv += ["--sample-parents", "@simple.pedigree.132.txt"]
+                if mixed:
+                    argv += ["--sample-parents", mixed_files["parents"], "--gamete-ploidy", mixed_files["tau"], "--gamete-error", "0.1"]
+                else:
+                    argv += ["--sample-parents", "@simple.pedigree.132.txt"]
             runs.append((prog, argv, chosen, fstr, c0["tag"]))
+            run_ploidies.append(MIXED_PLOIDIES if mixed else [PLOIDY] * 3)
     res = pool.map_tasks("impl.c16", [{"op": "program", "name": p, "argv": a} for p, a, _, _, _ in runs], mode="jit")
     events, meta = [], []
     run_aborts = {}
-    for (prog, argv, chosen, fstr, tag), rr in zip(runs, res):
+    for (prog, argv, chosen, fstr, tag), rr, plo in zip(runs, res, run_ploidies):
         if not rr["ok"]:
             ck.machinery_failure("program worker: %s" % rr["error"])
         o = rr["result"]
         ck.evaluations += 1
+        if plo != [PLOIDY] * 3:
+            ck.bump("program_runs_with_mixed_ploidy", 1)
         crashed = "error" in o
         if crashed:
             root = o["error"].split(":")[0]
@@ -358,8 +368,10 @@ def main():
                     ev["missing"] = True
                 else:
                     ev["out"] = abstract_output(r, ck)
+                    ev["out"]["ploidies"] = plo
+                    ev["out"]["sampled"] = o.get("sampled", {}).get("S%d" % i, [])
             events.append(ev)
-            meta.append({"prog": prog, "filter": fstr, "prior_frequencies": tag, "record": record_line(s["c"], "S%d" % i).strip(),
+            meta.append({"prog": prog, "filter": fstr, "prior_frequencies": tag, "ploidies": plo, "record": record_line(s["c"], "S%d" % i).strip(),
                          "RF_type": s["c"]["rfType"], "AF_type": s["c"]["afType"], "error": o.get("error"),
                          "chain": o.get("chain"), "line": None if crashed or ev["missing"] else recs["S%d" % i].line})
     ph.mark("cli")
@@ -587,6 +599,7 @@ def edge_regime(ck, wdir, rnd):
                     ev["missing"] = True
                 else:
                     ev["out"] = abstract_output(r_, ck)
+                    ev["out"]["sampled"] = o.get("sampled", {}).get("E%d" % i, [])
             events.append(ev)
             meta.append({"prog": prog, "filter": fstr, "prior_frequencies": None if s["x"]["tag"] == "none" else "RF",
                          "record": lines[(argv[argv.index("--haplotypes") + 1], i)],
@@ -598,7 +611,24 @@ def edge_regime(ck, wdir, rnd):
 
 
 def empty_out():
-    return {"kept": [], "extra_alt": False, "refmasked": False, "filters": [], "afprior": [], "gts": [], "afp": [], "gp": []}
+    return {"kept": [], "extra_alt": False, "refmasked": False, "filters": [], "afprior": [], "gts": [], "afp": [], "gp": [],
+            "ploidies": [], "sampled": []}
+
+
+MIXED_PLOIDIES = [4, 3, 2]
+
+
+def write_mixed_ploidy_files(wdir):
+    """SAMPLE1 (4x) x SAMPLE3 (2x) -> SAMPLE2 (3x): ploidy, parents and gamete-ploidy files for call-pedigree"""
+    files = {"ploidy": "SAMPLE1\t4\nSAMPLE2\t3\nSAMPLE3\t2\n",
+             "parents": "SAMPLE1\t.\t.\nSAMPLE2\tSAMPLE1\tSAMPLE3\nSAMPLE3\t.\t.\n",
+             "tau": "SAMPLE1\t2\t2\nSAMPLE2\t2\t1\nSAMPLE3\t1\t1\n"}
+    out = {}
+    for k, text in files.items():
+        out[k] = os.path.join(wdir, "mixed-%s.txt" % k)
+        with open(out[k], "w") as fh:
+            fh.write(text)
+    return out
 
 
 def abstract_output(r, ck):
@@ -624,7 +654,7 @@ def abstract_output(r, ck):
         afp.append(mil(smp.get("AFP")))
         gp.append(mil(smp.get("GP")))
     return {"kept": kept, "extra_alt": extra, "refmasked": "REFMASKED" in r.info, "filters": list(r.filters),
-            "afprior": mil(r.info.get("AFPRIOR")), "gts": gts, "afp": afp, "gp": gp}
+            "afprior": mil(r.info.get("AFPRIOR")), "gts": gts, "afp": afp, "gp": gp, "ploidies": [], "sampled": []}
 
 
 def golden_events(ck):
